@@ -101,3 +101,51 @@ def run_selftest(prop, modname, mutants, baseline_bad, repo):
     if missed:
         raise AnalysisBroken('checker self-test failed: %s' % '; '.join('%s (%s)' % x for x in missed))
     return summary
+
+
+def _one_benign(args):
+    prop, modname, patch, repo = args
+    import importlib, subprocess
+    from . import core
+    mod = importlib.import_module(modname)
+    d = scratch_copy(repo)
+    try:
+        r = subprocess.run(['patch', '-p1', '-s', '-f', '-d', d, '-i', patch], stdout=subprocess.PIPE, stderr=subprocess.STDOUT, text=True)
+        if r.returncode != 0:
+            return {'patch': os.path.basename(patch), 'status': 'skipped'}
+        try:
+            obs, ctx = core.run_property(prop, 'quick', 0, mod, repo=d, quiet=True)
+            ctx.close()
+        except AnalysisBroken as e:
+            return {'patch': os.path.basename(patch), 'status': 'broken', 'why': str(e)[:400]}
+        return {'patch': os.path.basename(patch), 'status': 'ran', 'violations': [(o.rule, o.key, o.loc) for o in obs if not o.ok]}
+    finally:
+        shutil.rmtree(d, ignore_errors=True)
+
+
+def run_benign(prop, modname, baseline_bad, repo):
+    """false-alarm regression: every behaviour-preserving refactoring under tools/benign must leave the check silent.
+    A patch that no longer applies to the current tree is skipped; a new report on one that applies is a broken checker."""
+    import glob
+    here = os.path.dirname(os.path.dirname(os.path.abspath(__file__)))
+    patches = sorted(glob.glob(os.path.join(here, 'tools', 'benign', '*.diff')))
+    summary = {'patches': len(patches), 'silent': 0, 'skipped': 0, 'results': []}
+    if not patches:
+        return summary
+    alarms = []
+    with ProcessPoolExecutor(max_workers=min(12, len(patches))) as ex:
+        for r in ex.map(_one_benign, [(prop, modname, p, repo) for p in patches]):
+            if r['status'] == 'skipped':
+                summary['skipped'] += 1
+            elif r['status'] == 'broken':
+                alarms.append('%s: analysis broken: %s' % (r['patch'], r['why']))
+            else:
+                new = [v for v in r['violations'] if (v[0], v[1]) not in baseline_bad]
+                if new:
+                    alarms.append('%s: %s' % (r['patch'], '; '.join('%s %s at %s' % v for v in new[:3])))
+                else:
+                    summary['silent'] += 1
+            summary['results'].append({'patch': r['patch'], 'status': r['status'] if r['status'] != 'ran' else 'silent'})
+    if alarms:
+        raise AnalysisBroken('false alarm on behaviour-preserving refactoring(s): ' + ' | '.join(alarms))
+    return summary
